@@ -328,6 +328,152 @@ pub mod w7 {
         }
     }
 }
+pub mod w8 {
+    use std::collections::HashMap;
+    pub struct Store {
+        pub data: Vec<u64>,
+        pub cache: HashMap<u64, usize>,
+    }
+    impl Store {
+        pub fn ok_add(&mut self, h: u64, v: u64) -> usize {
+            match self.cache.get(&h) {
+                Some(a) => *a,
+                None => {
+                    let addr = self.data.len();
+                    self.data.push(v);
+                    self.cache.insert(h, addr);
+                    addr
+                }
+            }
+        }
+        /// copies another store's entries for the addresses that exist here - whatever those cells hold
+        pub fn ctl_copy_entries(&mut self, from: &Store) {
+            for (h, a) in from.cache.iter() {
+                if *a < self.data.len() {
+                    self.cache.entry(*h).or_insert(*a);
+                }
+            }
+        }
+    }
+}
+pub mod d10 {
+    /// raw tabs and line feeds are skipped: bytes of the literal are lost
+    pub fn ctl_skips_layout(content: &str) -> Vec<u8> {
+        let mut bytes = vec![];
+        let mut check_escape = false;
+        for c in content.chars() {
+            if check_escape {
+                bytes.push(c as u8);
+                check_escape = false;
+                continue;
+            }
+            if c == '\\' {
+                check_escape = true
+            } else if !(c == '\n' || c == '\t') {
+                bytes.extend_from_slice(c.encode_utf8(&mut [0u8; 4]).as_bytes());
+            }
+        }
+        bytes
+    }
+    pub fn ctl_continue_before_use(content: &str) -> String {
+        let mut out = String::new();
+        for c in content.chars() {
+            if c.is_whitespace() {
+                continue;
+            }
+            out.push(c);
+        }
+        out
+    }
+    pub fn ok_every_character_used(content: &str) -> Result<Vec<u8>, String> {
+        let mut bytes = vec![];
+        let mut check_escape = false;
+        for c in content.chars() {
+            if check_escape {
+                match c {
+                    'n' => bytes.push(10),
+                    _ => return Err(format!("bad escape {}", c)),
+                }
+                check_escape = false;
+                continue;
+            }
+            if c == '\\' {
+                check_escape = true
+            } else if c == '\0' {
+                Err(format!("nul"))?;
+            } else {
+                bytes.extend_from_slice(c.encode_utf8(&mut [0u8; 4]).as_bytes());
+            }
+        }
+        Ok(bytes)
+    }
+}
+pub mod a12 {
+    pub struct Store {
+        pub register: Vec<usize>,
+        pub resolver: fn(&mut Store, u64) -> Result<bool, String>,
+    }
+    impl Store {
+        pub fn ok_resolve_passes_through(&mut self, symbol: u64) -> Result<bool, String> {
+            (self.resolver)(self, symbol)
+        }
+        pub fn ok_resolve_through_question_mark(&mut self, symbol: u64) -> Result<bool, String> {
+            let accepted = (self.resolver)(self, symbol)?;
+            Ok(accepted)
+        }
+        /// "accepted" only if the top register changed: a de-duplicated answer is reported as declined
+        pub fn ctl_resolve_second_guesses(&mut self, symbol: u64) -> Result<bool, String> {
+            let top = self.register.last().cloned();
+            let resolved = (self.resolver)(self, symbol)?;
+            Ok(resolved && self.register.last().cloned() != top)
+        }
+    }
+}
+pub mod g7 {
+    use garnish_lang_traits::{GarnishData, GarnishDataType};
+    fn look<D: GarnishData>(this: &mut D, addr: D::Size) -> Result<Option<D::Size>, D::Error> {
+        match this.get_data_type(addr.clone())? {
+            GarnishDataType::Pair => Ok(Some(addr)),
+            _ => Ok(None),
+        }
+    }
+    /// walks down the left operands only: a concatenation nested on the right is looked at as one item
+    pub fn ctl_left_spine_only<D: GarnishData>(this: &mut D, value: D::Size) -> Result<Option<D::Size>, D::Error> {
+        let mut current = value;
+        loop {
+            let (left, right) = this.get_concatenation(current)?;
+            if let Some(found) = look(this, right)? {
+                return Ok(Some(found));
+            }
+            match this.get_data_type(left.clone())? {
+                GarnishDataType::Concatenation => current = left,
+                _ => return look(this, left),
+            }
+        }
+    }
+    pub fn ok_both_queued<D: GarnishData>(this: &mut D, value: D::Size) -> Result<Option<D::Size>, D::Error> {
+        let start = this.get_register_len();
+        this.push_register(value)?;
+        let mut found = None;
+        while this.get_register_len() > start {
+            if let Some(r) = this.pop_register()? {
+                match this.get_data_type(r.clone())? {
+                    GarnishDataType::Concatenation => {
+                        let (left, right) = this.get_concatenation(r)?;
+                        this.push_register(left)?;
+                        this.push_register(right)?;
+                    }
+                    _ => {
+                        if found.is_none() {
+                            found = look(this, r)?;
+                        }
+                    }
+                }
+            }
+        }
+        Ok(found)
+    }
+}
 pub mod g4c {
     use garnish_lang_traits::{GarnishData, TypeConstants};
     pub fn ctl_no_lower_bound<D: GarnishData>(this: &D, list: D::Size, index: D::Number) -> Result<Option<D::Size>, D::Error> {
